@@ -290,6 +290,7 @@ def showBits (h : Heap) (d : DS) : String :=
     match h[o]? with
     | none => "!"
     | some ob =>
+      if ob.kind == .text || ob.kind == .bool then "-" else
       match (rowsBits ob.rows).mapM id with
       | none => "-"
       | some ws => if ws.isEmpty then "[]" else ";".intercalate (ws.map (fun r => ",".intercalate (r.map (fun w => toString w.toNat))))))
